@@ -139,6 +139,19 @@ def run(ctx):
     impls = matcher_impls(prog)
     ctx.floor("R1", "Matcher impls", len(impls), 22)
     r1_r2(ctx, impls)
+    r2b(ctx, impls)
+    r3(ctx)
+    r4(ctx)
+    r5(ctx)
+    r6(ctx)
+    r7(ctx)
+    r8(ctx)
+    r9(ctx)
+
+
+# ------------------------------------------------------------------------------------------------
+def r2b(ctx, impls):
+    prog = ctx.prog
     # R2b: a by-name reference must resolve to the same referent in both methods (local registry first; a local hit
     # without kinds must NOT fall through to a global rule of the same name)
     rr = [i for i in impls if i["self"].startswith("ast_grep_config::rule::referent_rule::ReferentRule")]
@@ -153,16 +166,8 @@ def run(ctx):
         ctx.ob("R2", "ReferentRule resolves kinds and matches through the same lookup", ok,
                "lookup chain after eval_local — match_node_with_env: %s; potential_kinds: %s%s" % (cm and cm[0], ck and ck[0], "" if ok else " — the two methods can resolve `matches: id` to different rules (local vs global of the same id), so the kind set may belong to a rule that is not the one matched"),
                where=(k or m).loc() if (k or m) else None)
-    r3(ctx)
-    r4(ctx)
-    r5(ctx)
-    r6(ctx)
-    r7(ctx)
-    r8(ctx)
-    r9(ctx)
 
 
-# ------------------------------------------------------------------------------------------------
 def r1_r2(ctx, impls):
     prog = ctx.prog
     for impl in impls:
